@@ -120,6 +120,10 @@ def res_key(mech):
     return None, mech
 
 
+VECTOR_TYPE = re.compile(r"^(float|int|uint|bool|half|double|min16float|min16int|min16uint|short|ushort|long|ulong|char|uchar)"
+                         r"[1-4](x[1-4])?$")
+
+
 def finding_key(req, obs, detail):
     """Key of an oracle failure = <defect site>/<mechanical key>.  The mechanical key is printed by the harness
     (`FAIL:<mechanical key> | <text>`) and names the target, the check that failed and the kinds of the entities
@@ -132,6 +136,11 @@ def finding_key(req, obs, detail):
         return "panic %s: %s" % (m.group(1), re.sub(r"\d+", "N", m.group(2)))
     mech = d.split(" | ")[0]
     if req.startswith("C15.res"):
+        # a user entity spelled like a built-in vector / matrix type (`uint3`, `float4`, `float4x4`: accepted by the front end,
+        # in neither RESERVED_NAMES) is emitted verbatim and hides the type in every later declaration that names it
+        m = re.search(r"built-in '([A-Za-z0-9_]+)' resolves to", d)
+        if mech.startswith("capture-builtin:") and m and VECTOR_TYPE.match(m.group(1)):
+            return "res:vector-type-names-not-reserved/capture-builtin:%s:vector-type" % mech.split(":")[1]
         site, key = res_key(mech)
         return key if site is None else "res:" + site + "/" + key
     root = root_cause(mech)
@@ -218,6 +227,8 @@ WITNESSES = [
     ('pGood', 'dx', 'st S a end gl s g rs cbs s0 texture rs ba - sampler fn h i p { lv x use G0 use G1 } ef c main tid { use F0 use G2 } pl P F1 -'),
     ('pGood', 'vkba', 'st S a end gl s g rs cbs s0 texture rs ba - sampler fn h i p { lv x use G0 use G1 } ef c main tid { use F0 use G2 } pl P F1 -'),
     ('pGood', 'msl', 'st S a end gl s g rs cbs s0 texture rs ba - sampler fn h i p { lv x use G0 use G1 } ef c main tid { use F0 use G2 } pl P F1 -'),
+    ('pWave', 'msl', 'fn zqf i threads_per_simdgroup { use W0 use W1 use L0 } ef c zqe zqp { use F0 } pl zqP F1 -'),
+    ('pWave', 'dx', 'fn zqf i threads_per_simdgroup { use W0 use W1 use L0 } ef c zqe zqp { use F0 } pl zqP F1 -'),
 ]
 
 
@@ -245,6 +256,9 @@ SPEC = {
         "scope_loop_terminates",
         # the emitted program (Model/NamesEmit: how both exporters consume the map)
         "emitted_never_reserved", "emitted_injective_file_scope", "flat_used_name_unique",
+        # identifiers the exporters introduce themselves (implicit wave parameters, stage locals, wrapper names)
+        "introduced_names_reserved_as_modelled", "implicit_params_as_modelled", "implicit_params_apart_from_managed",
+        "implicit_params_apart_from_managed_msl", "waveParams_decls", "implicit_param_clash_without_reservation_witness",
         "uses_resolve_to_same_entity", "renaming_equivariant", "renaming_not_suffix_stable_witness",
         # clauses that are false on the current code: witnesses on the model, replayed on the real compiler
         "member_reserved_witness", "cbuffer_reserved_witness", "cbuffer_member_dangling_witness",
